@@ -849,13 +849,15 @@ def run(ctx, only=None):
         ctx.section("symmetry", evaluations=ctx.evals - e0)
     if want("cli"):
         e0 = ctx.evals
-        ctx.pmap(shard_cli, chunk(len(BASES), 200))
+        # quick: the bases of <= 2 elements (BASES is ordered by size); thorough: all of them
+        ncli = len(BASES) if not quick else 1 + sum(1 for b in BASES[1:6018] if len(b) <= 2)
+        ctx.pmap(shard_cli, chunk(ncli, 40 if quick else 200))
         first = {}
         for b in R.bases(3, 4):
             first.setdefault(F.verdicts(b), b)
         shards = [(first[v], cmd) for v in sorted(first, reverse=True) for cmd in ("poly", "insenc")]
         ctx.pmap(shard_cli_fresh, shards)
-        ctx.bounds["cli"] = ("poly and insenc through get_parser().parse_args for every basis of Bases(3,4), "
+        ctx.bounds["cli"] = ("poly and insenc through get_parser().parse_args for every basis of Bases(%d,4), " % (2 if quick else 3) +
                              "0-based '_' and 1-based ':' spelling; %d runs of permuta.cli.main in a fresh "
                              "interpreter" % len(shards))
         ctx.section("cli", evaluations=ctx.evals - e0)
